@@ -572,7 +572,21 @@ def gen_case(rng: random.Random, tier: str):
             dec = mappable["declared"]
             q = [[qid, t] for qid, t in zip(dec, rng.sample(range(len(mappable["traps"])), len(dec)))]
         ext_build = dict(env=env_list(rng, env0, False), qubits=q)
+    find = []
+    if mappable:
+        dec = mappable["declared"]
+        perm = list(dec)
+        rng.shuffle(perm)
+        find.append(perm)  # a visiting order over ALL declared qubits
+        find.append([rng.choice(dec) for _ in range(rng.randint(1, 5))])
+        if len(dec) > 1:
+            find.append(rng.sample(dec, len(dec) - 1))
+        if rng.random() < 0.3:
+            find.append(dec[:1] + ["ghost"])
+        if rng.random() < 0.3:
+            find.append([])
     return dict(
+        find=find,
         ext_ops=ext_ops, ext_build=ext_build,
         device=base["device"], register=base["register"], maps=base.get("maps", []),
         mappable=mappable, vars=hb.vars, heap=hb.heap, ops=ops, builds=builds,
